@@ -1,5 +1,6 @@
 import WfProofs.SqliteConn
 import WfProofs.SqliteLock
+import WfProofs.SqliteScratch
 /-!
 # C21 — the single-connection SQLite store keeps working after use
 
@@ -234,3 +235,45 @@ theorem C21_shared_lock_refutes (t : Table) (h : t.lockPerStore = false) : ¬ Lo
   intro hagree
   have h1 := hagree [true, true] [false, false] rfl [.acq 0 0, .acq 0 1]
   simp [runLocks, lockStep, lockOf, h] at h1
+
+/-! ## connection-scoped state (TEMP tables, attached databases, PRAGMA settings) -/
+
+/-- Checked on the current source: no section function of either store — with the helper
+methods and module functions it reaches — has a statement on connection-scoped objects
+(`TEMP`/`TEMPORARY` schema objects, `temp.` names, `sqlite_temp_master`, `ATTACH`/`DETACH`,
+`PRAGMA`).  Such state dies with a per-call connection and stays on the persistent one. -/
+theorem C21_no_connection_scoped_state : tableNoScratch table = true := by decide
+
+/-- **C21, connection-scoped part.** Whatever connection-scoped state is and whatever a
+section could do with it: every history of sections, on the workflow store and on any state
+stores, returns the same values in both connection modes, and after it the persistent
+connection carries exactly what a newly opened connection has. -/
+theorem C21_connection_state_modes_agree : ScratchAgree table :=
+  scratchAgree_of_noScratch table C21_no_connection_scoped_state
+
+/-- a state that counts what was staged; a section answers with what it sees -/
+def demoKSem : KSem Nat Nat := fun s a k => (k + a + 1, 100 * s + 10 * a + k)
+
+/-- non-vacuity: a history over the real table (query, delete, a state-store section, a missing
+object, query again) returns values, the same in both modes; on a table in which `query` and
+`delete` stage their lists on the connection the later calls see the earlier lists -/
+example :
+    (runScratch table .single demoKSem 0 [true] [(none, sec! "ws.query", 5), (none, sec! "ws.delete", 2),
+        (some 0, sec! "ss._load_state", 1), (some 3, sec! "ss._load_state", 1), (none, sec! "ws.query", 7)] 0).2 =
+      [some 350, some 520, some 1210, none, some 370] ∧
+    (runScratch table .perCall demoKSem 0 [false] [(none, sec! "ws.query", 5), (none, sec! "ws.delete", 2),
+        (some 0, sec! "ss._load_state", 1), (some 3, sec! "ss._load_state", 1), (none, sec! "ws.query", 7)] 0).2 =
+      [some 350, some 520, some 1210, none, some 370] ∧
+    (runScratch { table with scratch := ["ws.query", "ws.delete"] } .single demoKSem 0 [true]
+        [(none, sec! "ws.query", 5), (none, sec! "ws.delete", 2), (some 0, sec! "ss._load_state", 1),
+         (none, sec! "ws.query", 7)] 0) = (17, [some 350, some 526, some 1210, some 379]) := by decide
+
+/-- Sensitivity: if a section reachable through the provider has statements on
+connection-scoped objects, the property is false — call it twice: the second call sees what
+the first one left on the persistent connection, and nothing on a per-call connection. -/
+theorem C21_connection_scoped_state_refutes (t : Table) (hws : t.wsShared = true) (s : Nat) (sec : Sec)
+    (hs : t.secs[s]? = some sec) (hp : sec.acquire = .provider) (hk : secScratch t sec = true) :
+    ¬ ScratchAgree t := by
+  intro h
+  have h1 := (h Nat Nat (fun _ _ k => (k + 1, k)) 0 [] [] rfl [(none, s, 0), (none, s, 0)]).1
+  simp [runScratch, scratchStep, hs, onShared, hws, hp, hk, perCall_beq_single] at h1
